@@ -92,6 +92,24 @@ func init() {
 		ConformanceQuick: 32, ConformanceThorough: 512,
 	})
 	props = append(props, &PropDef{
+		ID: "C05", Title: "Each mapper's bus decoding is a well-formed image of its memory map", Level: "model_checking",
+		Patterns: []string{"verif/harness/c05"},
+		Jobs: func(tier string) []sym.Job {
+			var js []sym.Job
+			for m := 0; m < 4; m++ {
+				for _, f := range []string{"BusWellFormed", "PakRejection", "Console", "BusPages", "PakPages"} {
+					js = append(js, job("c05", f, fmt.Sprintf("c05/%s/%s", f, mapperNames[m]), int64(m)))
+				}
+			}
+			return js
+		},
+		Bounds:      []string{"bus and pak addresses: all 2^24 values each, 4 mappers", "loop-free implementation code; the oracle's table scan has a concrete trip count"},
+		Outside:     []string{"addresses >= 2^24"},
+		Exhaustive:  true,
+		Explanation: "implementation arithmetic vs. spec/cartmap (declarative transcription of the library's documented region tables, DESIGN Appendix B) for an arbitrary 24-bit address",
+		ConformanceQuick: 40, ConformanceThorough: 600,
+	})
+	props = append(props, &PropDef{
 		ID: "C17", Title: "15-bit colour packing is lossless and MulDiv scales with saturation", Level: "model_checking",
 		Patterns: []string{"verif/harness/c17"},
 		Jobs: func(tier string) []sym.Job {
